@@ -32,6 +32,28 @@ def c13 (op : String) (a : Array Json) : R (Option Json) := do
        ("values_ok", Json.bool (s.dq.all fun e => e.1 == e.2)), ("ver", natJ s.ver),
        ("excluded", Json.bool (Excluded_appendDuringIteration mode compute s0 sched)),
        ("done", Json.bool (allDone s))])))
+  | "c13_cache_coarse" =>
+    -- as c13_cache_run, but the schedule has one thread id per quantum of the traced scheduler
+    -- (SparseV.Interleave.quantum); also answers where the scheduled thread is parked after each quantum
+    let mode ← jMode (← arg a 1)
+    let dq0 ← jList jKey (← arg a 2)
+    let progs ← jList (jList jKey) (← arg a 3)
+    let coarse ← jList jNat (← arg a 4)
+    let compute : Key → Key := fun k => k
+    let s0 : CState Key := cinit (dq0.map fun k => (k, k)) progs
+    let mut s := s0
+    let mut arrived : Array Json := #[]
+    for t in coarse do
+      s := (quantum mode compute t s).1
+      arrived := arrived.push (Json.str (pcKind s t))
+    let r := coarseRun mode compute coarse s0
+    let rets := r.1.threads.map fun th => listJ (fun (x : Key × Except Err Key) => Json.arr #[keyJ x.1, outcomeJ keyJ x.2]) th.rets.reverse
+    pure (some (okJ (Json.mkObj
+      [("rets", Json.arr rets.toArray), ("dq", listJ keyJ (r.1.dq.map (·.1))),
+       ("values_ok", Json.bool (r.1.dq.all fun e => e.1 == e.2)), ("ver", natJ r.1.ver),
+       ("fine", listJ natJ r.2), ("arrived", Json.arr arrived),
+       ("excluded", Json.bool (Excluded_appendDuringIteration mode compute s0 r.2)),
+       ("done", Json.bool (allDone r.1))])))
   | "c13_memo_run" =>
     let m0 ← jList jNat (← arg a 1)
     let progs ← jList (jList jNat) (← arg a 2)
